@@ -46,6 +46,48 @@ CLAIMED = {
         technique="Lean 4 decision-logic + invariant proofs over all header lists / op sequences; differential correspondence",
         design="DESIGN.md §5 C15",
     ),
+    "C09": dict(
+        text="Lean 4 theorems (AQ.Props.C09) over every API-call sequence of the close/timer model (generic in the time type): a "
+             "started, non-terminated connection always has closeAt set and get_timer is some t <= closeAt (never None, never raises); "
+             "at most one ConnectionTerminated, nothing appended after it, TERMINATED is final; END states send nothing and closing "
+             "packets are built in at most one call; entering CLOSING/DRAINING at t sets closeAt = t + 3*PTO and a timer at/after the "
+             "deadline terminates with the recorded event; idle termination at the idle deadline, which only accepted packets move. "
+             "Tie: the model is replayed (Float, bit-exact deadlines) against real client/server pairs after EVERY API call over "
+             "small-scope plans x 6 handshake stages and random scripts (close at arbitrary points, fatal frames in every space, "
+             "peer closes, blackouts, late timers); an independent oracle checks the property on the public trace.",
+        note="Trusted: Lean kernel; standard axioms; harness/impl_close.py classification of receive_datagram outcomes; PTO / ack / "
+             "loss / pacing deadlines are inputs of the model (observed values); OrdLaws (lt->le, refl, trans on finite doubles) for "
+             "timer_defined; usage hypothesis: a client is fed no datagram before connect(); assumes the close frame always fits (C16).",
+        technique="Lean 4 state-machine invariants by induction over API-call sequences; per-call differential correspondence",
+        design="DESIGN.md §5 C09",
+    ),
+    "C18": dict(
+        text="Lean 4 theorems (AQ.Props.C18) over all sequences of NEW_CONNECTION_ID / RETIRE_CONNECTION_ID / local change / peer "
+             "switch / frame writes with arbitrary room / ack+loss reports: destination ID >= every processed retire-prior-to, every "
+             "abandoned ID is queued, in flight or acknowledged (re-queued on loss), stock <= advertised limit or CONNECTION_ID_LIMIT_ERROR, "
+             "issued <= min(8, peer limit), issued IDs accepted until retired, retired IDs replaced by fresh ones, and no step raises "
+             "a Python exception (with counterexample theorems for the pre-fix behaviour). Tie: every call of a modelled method of a "
+             "real QuicConnection (handler level exhaustive <= 4 events; connection level after a real handshake with injected frames, "
+             "loss, partial acks, congestion) is diffed against the compiled model; a wire oracle checks destination IDs, RETIRE "
+             "frames, acceptance and limits.",
+        note="Trusted: Lean kernel; standard axioms; harness/impl_cid.py (method wrapping for observation); issued IDs are distinct; "
+             "remote limit >= 2 and constant after the transport parameters; recovery reports each frame at most once (C08); asyncio "
+             "server routing is covered by C19.",
+        technique="Lean 4 invariant proofs over op sequences; call-level differential correspondence on real connections",
+        design="DESIGN.md §5 C18",
+    ),
+    "C17": dict(
+        text="Lean 4 theorems (AQ.Props.C17) for ALL values: varint / fixed-width / bytes / ACK-range-set / long+short header / "
+             "Retry / Version Negotiation / transport-parameter round trips, model encoder bytes = independent RFC encoder bytes "
+             "(AQ.Model.CodecSpec), decode-then-reencode laws, error classes, and per-parameter confinement to the declared length. "
+             "Tie: Buffer (C) and packet.py driven on boundary-exhaustive and random inputs (all parameter subsets in thorough) "
+             "against the compiled model and the spec encoders, plus RFC oracles in plain Python. TLS handshake message codecs are "
+             "delivered with the TLS machinery (see C11) and are not yet part of this claim.",
+        note="Trusted: Lean kernel; standard axioms; harness/impl_codec.py; packet header decode-then-reencode is checked by "
+             "correspondence only; TLS message codecs pending.",
+        technique="Lean 4 algebraic round-trip laws for all inputs; differential correspondence incl. independent encoder",
+        design="DESIGN.md §5 C17",
+    ),
 }
 NOT_YET = "machinery for this property is still under construction in this round (model/proofs/correspondence incomplete); not claimed"
 
